@@ -318,10 +318,17 @@ func cmdCheck(args []string) int {
 	}
 	cfg.CrossCheck = 6
 	cfg.RecordQueries = true
+	// a query z3 4.8.12 leaves undecided gets a second opinion (z3 5.1.0, then cvc5) before it counts as unknown
+	cfg.FallbackMs = 60000
+	cfg.FallbackSolvers = [][]string{{"z3-new", "-in"}, {"cvc5", "--lang", "smt2", "--produce-models"}}
 	if tier == "thorough" {
+		cfg.FallbackMs = 240000
 		cfg.QueryTimeoutMs = 120000
 		cfg.Samples = 24
 		cfg.CrossCheck = 40
+	}
+	if ms := envInt("SYMGO_QUERY_MS", 0); ms > 0 { // development: provoke the fallback path
+		cfg.QueryTimeoutMs = int(ms)
 	}
 	eng, err := interp.Load(cfg)
 	if err != nil {
